@@ -204,12 +204,18 @@ def run_check(prop, tier, seed, families, run=None, finish=True):
     run = run or Run(prop, tier, seed, 'model_checking')
     for family in families.split('+'):
         run_family(run, prop, tier, seed, family)
+    if prop in ('C04', 'C05', 'C08', 'C10'):
+        # code -> spec: long random ragged histories validated by TLC (spec/TraceRagged.tla)
+        from .. import rtracecheck
+        rtracecheck.run_random(run, prop, 1500 if tier == 'thorough' else 80, 50 if tier == 'thorough' else 30, seed)
     run.cov.setdefault('exhaustive_over_macro_edges', True)
     run.cov.setdefault('rule', '')
     run.cov['rule'] += (' Ragged: every macro-edge of the TLC state graph of spec/Ragged.tla (append, iterappend with fault '
                         'plans, truncate_raggedarray, mode, reopen) is executed on the real darr.RaggedArray; values/, '
                         'indices/ and the top-level files are decoded without Darr and compared with the spec target, as '
-                        'are the live and a fresh handle (every ra[k], iter_arrays over TLC-evaluated cases).')
+                        'are the live and a fresh handle (every ra[k], iter_arrays over TLC-evaluated cases). Long random ragged histories '
+                        '(up to 7 initial subarrays, iterappends of up to 4 items, faults) are recorded and validated by TLC against '
+                        'spec/TraceRagged.tla with a corrupted record as control.')
     run.assumptions += ['TLC results are exhaustive only for the instance constants recorded under tlc_instances',
                         'NumPy is the reference for np.asarray(item, dtype)']
     if finish:
